@@ -325,10 +325,10 @@ def check_frame(ctx, tag, f, h, w, anchor=None, depth=0):
             if (Y, X) in mids:
                 if r[0] != "ok" or r[1] is not var[mids[(Y, X)]]:
                     bad("getitem:%d,%d" % (Y, X), "frame[Y, X] is not the variable on the segment with that midpoint",
-                        key=[Y, X], segment=sorted(mids[(Y, X)]), expected=name(var[mids[(Y, X)]]), got=name(r[1]))
+                        coords=[Y, X], segment=sorted(mids[(Y, X)]), expected=name(var[mids[(Y, X)]]), got=name(r[1]))
             elif r != ("err", "IndexError"):
                 bad("getitem:%d,%d" % (Y, X), "frame[Y, X] for a position that is not a segment midpoint must raise IndexError",
-                    key=[Y, X], got=name(r[1]))
+                    coords=[Y, X], got=name(r[1]))
     # cell_neighbors / vertex_neighbors
     for y in range(-3, h + 4):
         for x in range(-3, w + 4):
